@@ -201,6 +201,51 @@ def dag_ops(rec, rc, name, fn, args, dead=None):
         check_proof(p, cell.get_hash(0))
         return len(p.to_boc())
     run('merkle-proof', proof)
+    # REJECTED input over the same DAG: an exotic root with the wrong number of references / wrong payload on top of the shared
+    # sub-DAG, through the bag-of-cells parser and through both constructors.  Being refused must not cost a walk per path either
+    # (e.g. an error message that renders the offending cell's whole unfolded tree).
+    if shared:
+        from pytoniq_core.boc.tvm_bitarray import TvmBitarray
+        h0, d0 = rc.hash(), rc.depth()
+        hb, db = ''.join(format(x, '08b') for x in h0), format(d0, '016b')
+        bad = [('pruned+2refs', 1, '00000001' + '00000001' + hb + db, 2), ('pruned+1ref', 1, '00000001' + '00000001' + hb + db, 1),
+               ('library+1ref', 2, '00000010' + hb, 1), ('proof+0refs', 3, '00000011' + hb + db, 0), ('proof+2refs', 3, '00000011' + hb + db, 2),
+               ('proof:wrong-hash', 3, '00000011' + '0' * 256 + db, 1), ('proof:wrong-depth', 3, '00000011' + hb + '1' * 16, 1),
+               ('update+1ref', 4, '00000100' + hb * 2 + db * 2, 1), ('update+3refs', 4, '00000100' + hb * 2 + db * 2, 3),
+               ('update:wrong-hash', 4, '00000100' + hb + '1' * 256 + db * 2, 2), ('unknown-type+2refs', 9, '00001001' + hb, 2), ('short-exotic+2refs', 1, '101', 2)]
+        for bname, typ, bits, nr in bad:
+            def via_boc(bits=bits, nr=nr):
+                plain = Builder().store_bits(bits)
+                for _ in range(nr):
+                    plain.store_ref(cell)
+                data = bytearray(plain.end_cell().to_boc())
+                size, off = data[4] & 7, data[5]
+                data[6 + 3 * size + off + size] |= 8          # the root (cell 0) becomes exotic
+                try:
+                    return Cell.one_from_boc(bytes(data)).hash
+                except Exception as e:
+                    return exc_name(e)
+
+            def via_ctor(bits=bits, nr=nr, typ=typ):
+                ba = TvmBitarray(1023)
+                ba.extend(bits)
+                try:
+                    return Cell(ba, [cell] * nr, typ).hash
+                except Exception as e:
+                    return exc_name(e)
+
+            def via_builder(bits=bits, nr=nr, typ=typ):
+                b = Builder(type_=typ).store_bits(bits)
+                for _ in range(nr):
+                    b.store_ref(cell)
+                try:
+                    return b.end_cell().hash
+                except Exception as e:
+                    return exc_name(e)
+            run(f'rejected:{bname}:from_boc', via_boc)
+            run(f'rejected:{bname}:Cell()', via_ctor)
+            run(f'rejected:{bname}:Builder', via_builder)
+        rec.covered('dag:rejected-exotic-root')
     rec.notes['dag_max_steps_seen'] = max(rec.notes.get('dag_max_steps_seen', 0), box.get('max', (0, ''))[0])
 
 
